@@ -17,6 +17,8 @@ LIB_THROWS = {
 STD_BASES = {'std::invalid_argument': 'std::logic_error', 'std::out_of_range': 'std::logic_error', 'std::logic_error': 'std::exception',
              'std::runtime_error': 'std::exception', 'std::domain_error': 'std::logic_error', 'std::bad_alloc': 'std::exception'}
 
+TERMINATE = '!std::terminate'
+
 class Effects:
     def __init__(self, world):
         self.w = world
@@ -24,6 +26,7 @@ class Effects:
         self.stack = set()
         self.assumed_nothrow = set()
         self.unparsed = set()
+        self.noexcept_violations = {}     # noexcept function -> exception classes that may reach its boundary
 
     # ---- class hierarchy
     def supers(self, c):
@@ -38,6 +41,8 @@ class Effects:
         return out
 
     def catches(self, handler_type, exc):
+        if exc == TERMINATE:
+            return False          # std::terminate is not an exception: no handler stops it
         if handler_type is None or exc == '*':
             return handler_type is None
         t = handler_type.name if handler_type.name.startswith('std::') else strip_ns(handler_type.name)
@@ -49,9 +54,6 @@ class Effects:
         if key in self.memo:
             return self.memo[key]
         if key in self.stack:
-            return set()
-        if fd.noexcept:
-            self.memo[key] = set()
             return set()
         self.stack.add(key)
         try:
@@ -74,6 +76,13 @@ class Effects:
                         r |= self.call_named(strip_ns(nm).split('::')[-1], None, len(args), ctor=True)
         finally:
             self.stack.discard(key)
+        if fd.noexcept:
+            # an exception that reaches the boundary of a noexcept function calls std::terminate: the process dies, no handler of a caller runs
+            if r - {TERMINATE}:
+                self.noexcept_violations.setdefault(fd.qname, set()).update(r - {TERMINATE})
+                r = {TERMINATE}
+            else:
+                r = set(r)
         self.memo[key] = r
         return r
 
